@@ -6,9 +6,12 @@ import (
 	"verif/internal/core"
 	"verif/internal/specgen"
 
+	_ "verif/internal/props/c01"
+	_ "verif/internal/props/c02"
 	_ "verif/internal/props/c03"
 	_ "verif/internal/props/c06"
 	_ "verif/internal/props/c07"
+	_ "verif/internal/props/c08"
 	_ "verif/internal/props/c09"
 	_ "verif/internal/props/c10"
 	_ "verif/internal/props/c11"
